@@ -183,6 +183,7 @@ theorem a64_bracket (Q : Nat) (hQ : Q % 16 = 0) (items : List (PSlot × Bool)) :
     (∀ it ∈ items, it.1.2.2.2.2 + pBytes it.1 < 2 ^ 31) → s.ret = none → s.gp 31 = Q →
     ∃ t1, run .a64 (items.flatMap stItem) s = some t1
       ∧ t1.gp 31 = Q ∧ (∀ r, (r ≠ 29 ∨ ∀ it ∈ items, it.2 = false) → t1.gp r = s.gp r) ∧ t1.x = s.x ∧ t1.ret = none
+      ∧ (t1.gp 29 = s.gp 29 ∨ t1.gp 29 = Q)
       ∧ (∀ x, x < Q + lo ∨ Q + itemsEnd lo items ≤ x → t1.mem x = s.mem x)
       ∧ ∀ t2 : St, t2.gp 31 = Q → t2.ret = none →
           (∀ x, Q + lo ≤ x → x < Q + itemsEnd lo items → t2.mem x = t1.mem x) →
@@ -192,7 +193,7 @@ theorem a64_bracket (Q : Nat) (hQ : Q % 16 = 0) (items : List (PSlot × Bool)) :
   induction items with
   | nil =>
     intro lo s _ _ _ _ _ hret hsp
-    refine ⟨s, by simp [run], hsp, fun _ _ => rfl, rfl, hret, fun _ _ => rfl, ?_⟩
+    refine ⟨s, by simp [run], hsp, fun _ _ => rfl, rfl, hret, Or.inl rfl, fun _ _ => rfl, ?_⟩
     intro t2 _ h2 _
     exact ⟨t2, by simp [run], rfl, h2, by simp, fun _ _ _ => rfl⟩
   | cons it rest ih =>
@@ -216,12 +217,14 @@ theorem a64_bracket (Q : Nat) (hQ : Q % 16 = 0) (items : List (PSlot × Bool)) :
     -- the optional mov
     have hmov : ∃ s'', run .a64 (if mv then [Instr.mov 29 31] else []) s' = some s'' ∧ s''.mem = s'.mem ∧ s''.x = s.x
         ∧ s''.ret = none ∧ s''.gp 31 = Q ∧ (∀ r, (r ≠ 29 ∨ mv = false) → s''.gp r = s.gp r)
-        ∧ (∀ g r, ((g, r) ≠ (0, 29) ∨ mv = false) → s''.reg g r = s.reg g r) := by
+        ∧ (∀ g r, ((g, r) ≠ (0, 29) ∨ mv = false) → s''.reg g r = s.reg g r)
+        ∧ (s''.gp 29 = s.gp 29 ∨ s''.gp 29 = Q) := by
       cases mv with
       | false =>
-        exact ⟨s', by simp [run], rfl, rfl, hret, hsp, fun _ _ => rfl, fun _ _ _ => rfl⟩
+        exact ⟨s', by simp [run], rfl, rfl, hret, hsp, fun _ _ => rfl, fun _ _ _ => rfl, Or.inl rfl⟩
       | true =>
-        refine ⟨s'.setGp 29 (s'.gp 31), run_one _ _ _ _ (step_mov _ 29 31 s' hret), rfl, rfl, hret, ?_, ?_, ?_⟩
+        refine ⟨s'.setGp 29 (s'.gp 31), run_one _ _ _ _ (step_mov _ 29 31 s' hret), rfl, rfl, hret, ?_, ?_, ?_,
+          Or.inr (by simp only [setGp_gp, if_true]; exact hsp)⟩
         · simp only [setGp_gp]; rw [if_neg (by omega)]; exact hsp
         · intro r hr
           rcases hr with hr | hr
@@ -231,7 +234,7 @@ theorem a64_bracket (Q : Nat) (hQ : Q % 16 = 0) (items : List (PSlot × Bool)) :
           rcases hgr with hgr | hgr
           · rw [reg_setGp, if_neg (by intro ⟨h1, h2⟩; exact hgr (by rw [h1, h2]))]; rfl
           · exact absurd hgr (by simp)
-    obtain ⟨s'', rmov, m''mem, m''x, m''ret, m''sp, m''gp, m''reg⟩ := hmov
+    obtain ⟨s'', rmov, m''mem, m''x, m''ret, m''sp, m''gp, m''reg, m''29⟩ := hmov
     have hregrest : ∀ g r, (g, r) ∈ keysOf rest → s''.reg g r = s.reg g r := by
       intro g r hgr
       apply m''reg
@@ -239,9 +242,15 @@ theorem a64_bracket (Q : Nat) (hQ : Q % 16 = 0) (items : List (PSlot × Bool)) :
       | false => exact Or.inr rfl
       | true =>
         left; intro h; rw [h] at hgr; exact hmv0 hm hgr
-    obtain ⟨t1, rrest, t1sp, t1gp, t1x, t1ret, t1mem, hload⟩ :=
+    obtain ⟨t1, rrest, t1sp, t1gp, t1x, t1ret, t129, t1mem, hload⟩ :=
       ih (p.2.2.2.2 + pBytes p) s'' hasc' hndr h31r hmv' (fun it hit => hoff it (List.mem_cons_of_mem _ hit)) m''ret m''sp
-    refine ⟨t1, ?_, t1sp, ?_, by rw [t1x, m''x], t1ret, ?_, ?_⟩
+    have h29 : t1.gp 29 = s.gp 29 ∨ t1.gp 29 = Q := by
+      rcases t129 with h | h
+      · rcases m''29 with h2 | h2
+        · exact Or.inl (h.trans h2)
+        · exact Or.inr (h.trans h2)
+      · exact Or.inr h
+    refine ⟨t1, ?_, t1sp, ?_, by rw [t1x, m''x], t1ret, h29, ?_, ?_⟩
     · rw [List.flatMap_cons, run_append]
       show (run Arch.a64 (stFix p :: (if mv then [Instr.mov 29 31] else [])) s).bind _ = _
       simp only [run, hst, Option.bind_some]
